@@ -266,8 +266,9 @@ class Impl(object):
             m.transfer_cmeta_id(self.objs[op[1]], self.objs[op[2]])
             return ['ok']
         if k == 'triple':
-            m.rdf.add((create_rdf_node('#' + op[1]), create_rdf_node(pred(op[2])),
-                       create_rdf_node((OBJ_NS, 'o%d' % op[3]))))
+            # object: an ontology term, or (index >= 10) the resource of a local id (e.g. bqbiol:hasPart rdf:resource="#id")
+            obj = create_rdf_node('#' + LOCAL_IDS[op[3] - 10]) if op[3] >= 10 else create_rdf_node((OBJ_NS, 'o%d' % op[3]))
+            m.rdf.add((create_rdf_node('#' + op[1]), create_rdf_node(pred(op[2])), obj))
             return ['ok']
         if k == 'q_eqs':
             return ['ok', [self.eqid.get(id(e), -1) for e in m.equations]]
@@ -317,7 +318,8 @@ class Impl(object):
             out = []
             if v.rdf_identity is not None:
                 for s, p, o in m.rdf.triples((v.rdf_identity, None, None)):
-                    out.append([pred_index(p), int(str(o).split('#o')[-1])])
+                    out.append([pred_index(p), 10 + LOCAL_IDS.index(str(o)[1:]) if str(o).startswith('#')
+                                else int(str(o).split('#o')[-1])])
             return ['ok', sorted(out)]
         raise RuntimeError('unknown op %r' % (op,))
 
@@ -472,6 +474,7 @@ def run_plain(case):
 BASE_NAMES = ['c$a', 'c$b', 'c$x', 'c$y', 'c$z', 'k$g', 'time', 'c$w', 'B$a', 'c$aa', 'd$v', 'Z', 'c$a_b']
 EXTRA_NAMES = ['n$p', 'n$q', 'c$a', 'c$x', 'r', 'c__a']
 CMETAS = ['id_a', 'id_b', 'c__a', 'c__b', 'c__a_', 'time', 'mid']
+LOCAL_IDS = CMETAS + ['c__x', 'c__y']
 
 
 PROFILES = {
@@ -662,7 +665,8 @@ def gen_case(seed, profile='edit'):
         elif k == 'transfer':
             ops.append(['transfer', rng.randrange(nvars), rng.randrange(nvars)])
         elif k == 'triple':
-            ops.append(['triple', rng.choice(CMETAS + ['c__x', 'c__y']), rng.randrange(2), rng.randrange(3)])
+            ops.append(['triple', rng.choice(CMETAS + ['c__x', 'c__y']), rng.randrange(2),
+                        10 + rng.randrange(len(LOCAL_IDS)) if rng.random() < 0.2 else rng.randrange(3)])
         elif k == 'query':
             ops.append([rng.choice(queries)])
         elif k == 'q_def':
